@@ -59,6 +59,74 @@ type ConcState struct {
 	cfg *ConcCfg
 }
 
+// pastVal stands for an earlier dynamic instance of a register (a previous loop iteration): what memory, or another
+// register, still refers to after the instruction that defines the register runs again.
+type pastVal struct {
+	ssa.Value
+}
+
+// retire: register v is about to be defined anew. Whatever still refers to its current instance - a variable or field
+// it was stored into, a register that stands for it - is re-pointed to a stand-in that keeps the facts known about it.
+func (st *ConcState) retire(v ssa.Value) {
+	used := false
+	for _, t := range st.alias {
+		if t == v {
+			used = true
+			break
+		}
+	}
+	if !used {
+		for _, t := range st.fvals {
+			if t == v {
+				used = true
+				break
+			}
+		}
+	}
+	if !used {
+		for _, t := range st.mem {
+			if t == v {
+				used = true
+				break
+			}
+		}
+	}
+	if !used {
+		return
+	}
+	g := &pastVal{Value: v}
+	if k, ok := st.ints[v]; ok {
+		st.ints[g] = k
+	}
+	if n, ok := st.nils[v]; ok {
+		st.nils[g] = n
+	}
+	if sy, ok := st.syms[v]; ok {
+		st.syms[g] = sy
+	}
+	if a, ok := st.alias[v]; ok {
+		st.alias[g] = a
+	}
+	if f, ok := st.slices[v]; ok {
+		st.slices[g] = f
+	}
+	for w, t := range st.alias {
+		if t == v {
+			st.alias[w] = g
+		}
+	}
+	for k, t := range st.fvals {
+		if t == v {
+			st.fvals[k] = g
+		}
+	}
+	for a, t := range st.mem {
+		if t == v {
+			st.mem[a] = g
+		}
+	}
+}
+
 // DynFact: the dynamic type of an interface value (Typ == nil: some type that none of the code's assertions to a
 // concrete type names) and its integer payload when it has one.
 type DynFact struct {
@@ -1011,6 +1079,7 @@ func ConcPaths(fn *ssa.Function, cfg ConcCfg) (seqs []string, truncated bool) {
 					_, h4 := st.slices[v]
 					if h1 || h2 || h3 || h4 {
 						st = st.clone()
+						st.retire(v)
 						delete(st.ints, v)
 						delete(st.nils, v)
 						delete(st.alias, v)
